@@ -243,8 +243,14 @@ class CoxeterGroup:
 
         # a degenerate form has no diagonalizing change of basis: diagonalize_form
         # then returns a singular W, and Winv is not its inverse
-        if not np.allclose((Winv @ W).astype('float64'), np.identity(num_gens),
-                           rtol=0, atol=1e-10):
+        # (the tolerance follows the precision of the number type in use)
+        try:
+            tolerance = max(1e-10, 1e4 * np.finfo(np.asarray(W).dtype).eps)
+        except ValueError:
+            tolerance = 1e-10
+
+        defect = np.abs(Winv @ W - np.identity(num_gens)).astype('float64')
+        if not (defect <= tolerance).all():
             raise GeometryError(
                 "cannot diagonalize: the bilinear form determined by the"
                 " Cartan matrix is degenerate"
